@@ -212,6 +212,10 @@ preserving('keep-gate-alias', ['C03', 'C19'], [(M + 'sim/circuit.py', "Z = _unit
 preserving('keep-eof-guard-clip', ['C13', 'C05'], [(M + 'entangle/eof.py', "tmp1 = (1 + np.sqrt(np.maximum(0, 1-tmp0*tmp0)))/2", "tmp1 = (1 + np.sqrt(np.clip(1-tmp0*tmp0, 0, 1)))/2")])
 
 
+ALL_CLAIMED = ['C01', 'C02', 'C03', 'C04', 'C05', 'C06', 'C07', 'C08', 'C09', 'C10', 'C11', 'C12', 'C13', 'C15', 'C16', 'C17', 'C18', 'C19', 'C20']
+VARIANTS['reformat-whole-package'] = dict(kind='preserving', edit=None, transform='unparse', expect={p: None for p in ALL_CLAIMED})
+
+
 def seeded_variants():
     """Confirmed seeded changes: expected verdicts are read from /verif/seeded/expect.json."""
     out = {}
@@ -245,6 +249,15 @@ def build(name, v, base):
             if s.count(old) != 1:
                 return root, f'edit anchor occurs {s.count(old)} times in {rel}'
             open(p, 'w').write(s.replace(old, new))
+        if v.get('transform') == 'unparse':
+            # whole-package formatting change: every module is replaced by ast.unparse(ast.parse(source)) (comments dropped, layout normalised)
+            import ast as _ast
+            for d, _, fs in os.walk(os.path.join(root, 'python', 'numqi')):
+                for f in fs:
+                    if f.endswith('.py'):
+                        pth = os.path.join(d, f)
+                        src = open(pth).read()
+                        open(pth, 'w').write(_ast.unparse(_ast.parse(src)) + '\n')
         # must still compile
         import ast
         for rel in {e[0] for e in (v.get('edit') or [])}:
